@@ -312,7 +312,8 @@ class C03(PropDef):
     rule = ("WALK over the three tag-header kinds (info TagHeader, HeaderTagHeader, DummyTestHeader): every tiling of a tag area "
             "of 0..48 bytes by tags (all compositions in units of 8), each tag's declared size at every residue "
             "(occupied-7..occupied) and, per tiling, one tag made too small (0..7), too large (leaving the area) or huge; "
-            "random larger areas; each with a drain history plus random next/clone/fresh interleavings. "
+            "random larger areas; each with a drain history plus random next/clone/fresh interleavings; DEPTH: regions of 0 .. 300000 "
+            "empty tags in front of 0 / 1 / 3 modules, built inside the harness (tags(), module_tags(), typed lookup vs the closed form). "
             "Non-trivial = distinct cases yielding at least one item.")
     assumptions = ["the tag area is 8-aligned and a multiple of 8 long (guaranteed by load / ref_from_slice)"]
 
@@ -1153,7 +1154,8 @@ class C08(PropDef):
             "release without} x {default features, --no-default-features} - whose transcripts must be pairwise identical and "
             "equal to the model of the respective profile; arithmetic sites are driven to their overflow points (module end < "
             "start, area base+length >= 2^64, section addr+size >= 2^64, entry_size*shndx >= 2^32, checksum operands summing "
-            "above 2^32, sizes below the header size). Non-trivial = distinct cases whose outcome is not a load error.")
+            "above 2^32, sizes below the header size); DEPTH regions of up to 300000 tags (stack / work per skipped tag). "
+            "Non-trivial = distinct cases whose outcome is not a load error.")
     assumptions = ["inputs that put an undeclared value into an enum-typed field of multiboot2-header are undefined behaviour "
                    "(known finding F20): they are recognised by the model (`UB`) and reported as KNOWN-FINDING, not compared"]
 
